@@ -132,9 +132,10 @@ def catalogue(thorough):
             cfgs.append({'fn': 'null_model_und_sign', 'tag': 'tie5_%d' % k, 'W': W,
                          'params': {'bin_iters': 0, 'wei_freq': wf}})
     # one representative per isomorphism class of 5- and 6-edge graphs on 5 nodes as negative support, every
-    # assignment of magnitudes {1/4, 1/2, 1} (quick: every assignment over {1/2, 1}, 5-edge classes only)
+    # assignment of magnitudes {1/4, 1/2, 1} (quick: every assignment over {1/2, 1}, 5-edge classes only; thorough: {1/4,1/2,1} on 5-edge, {1/2,1} on 6-edge classes)
     for cls, edges in iso_classes5((5, 6) if thorough else (5,)):
-        allw = list(itertools.product((0.25, 0.5, 1.0) if thorough else (0.5, 1.0), repeat=len(edges)))
+        allw = list(itertools.product((0.25, 0.5, 1.0) if (thorough and len(edges) == 5) else (0.5, 1.0),
+                                      repeat=len(edges)))
         for k, ws in enumerate(allw):
             W = np.zeros((5, 5))
             for (a, b), w in zip(edges, ws):
